@@ -1,5 +1,7 @@
-\* generating config (template): lib/checks/c14.py and c19.py substitute Mode / Partners / Seed / EmitNodes / CheckLaws
-CONSTANTS Mode = "bfs"  Partners = 6  Seed = 1  EmitNodes = FALSE  CheckLaws = TRUE
+\* generating config (template): lib/threevl.py substitutes the constants
+\* Mode "bfs" | "walk" | "rw" | "opq";  CheckLaws "all" | "some" | "none"
+CONSTANTS Mode = "bfs"  Partners = 4  Seed = 1  EmitNodes = FALSE  CheckLaws = "some"
+CONSTANTS Walks = 100  WalkLen = 6  Stride = 1
 SPECIFICATION Spec
 INVARIANT Visit
 CHECK_DEADLOCK FALSE
